@@ -771,7 +771,20 @@ def _is_literal(node):
         ast.literal_eval(node)
         return True
     except Exception:
+        pass
+    # displays of literals that also contain the spelling of infinity, float('inf'): (None, float('inf'))
+    def lit(n):
+        if isinstance(n, ast.Call) and isinstance(n.func, ast.Name) and n.func.id == "float" and len(n.args) == 1 and not n.keywords \
+                and isinstance(n.args[0], ast.Constant) and str(n.args[0].value).lower().lstrip("+-") in ("inf", "infinity"):
+            return True
+        if isinstance(n, (ast.Tuple, ast.List)):
+            return all(lit(e) for e in n.elts)
+        if isinstance(n, ast.Constant):
+            return True
+        if isinstance(n, ast.UnaryOp) and isinstance(n.op, (ast.USub, ast.UAdd)):
+            return lit(n.operand)
         return False
+    return isinstance(node, (ast.Tuple, ast.List, ast.Call)) and lit(node)
 
 
 def _overridden_below(P, cname, mname):
@@ -788,7 +801,7 @@ def _class_constants(P):
     for ci in P.classes.values():
         for st in ci.node.body:
             if isinstance(st, ast.Assign) and len(st.targets) == 1 and isinstance(st.targets[0], ast.Name) and _is_literal(st.value) \
-                    and isinstance(st.value, (ast.Dict, ast.List, ast.Tuple, ast.Set, ast.Constant)):
+                    and isinstance(st.value, (ast.Dict, ast.List, ast.Tuple, ast.Set, ast.Constant, ast.Call)):
                 cand.setdefault(ci.name, {})[st.targets[0].id] = st.value
     names = {n for d in cand.values() for n in d}
     if not names:
@@ -1510,6 +1523,92 @@ def _inline_foreign_helpers(P, anchors):
             del ci.methods[name]
 
 
+def _inline_returning_helpers(P, anchors):
+    """`T = self.h(args)` where h is a newly extracted, loop-free helper without locals, every path of which ends in `return <expr>`: replaced by h's
+    statements with `T = <expr>` where it returns (parameters := arguments; an assignment `T = T` that results is dropped).  This is the step function of a
+    scan moved into a helper -- `best = self.offer(kind, x, key(x), best)` -- put back into the loop it serves."""
+    def tree(body):
+        pre = []
+        for i, st in enumerate(body):
+            if isinstance(st, ast.Return):
+                return ("seq", pre, ("ret", st.value)) if st.value is not None else None
+            if isinstance(st, ast.If):
+                a_ = tree(st.body + body[i + 1:])
+                b_ = tree(st.orelse + body[i + 1:])
+                if a_ is None or b_ is None:
+                    return None
+                return ("seq", pre, ("if", st.test, a_, b_))
+            if not isinstance(st, (ast.Assign, ast.AugAssign, ast.Expr, ast.Pass)):
+                return None
+            pre.append(st)
+        return None
+
+    def render(t, mapping, target, st):
+        kind, pre, nxt = t
+        out = [_loc(_NameSubst(mapping).visit(copy.deepcopy(x)), st) for x in pre]
+        if nxt[0] == "ret":
+            val = _NameSubst(mapping).visit(copy.deepcopy(nxt[1]))
+            if ast.unparse(val) != ast.unparse(target):
+                out.append(_loc(ast.Assign(targets=[copy.deepcopy(target)], value=val), st))
+        else:
+            _, test, a_, b_ = nxt
+            body_ = render(a_, mapping, target, st)
+            else_ = render(b_, mapping, target, st)
+            if body_ or else_:
+                tst = _NameSubst(mapping).visit(copy.deepcopy(test))
+                if not body_:
+                    tst, body_, else_ = ast.UnaryOp(op=ast.Not(), operand=tst), else_, []
+                out.append(_loc(ast.If(test=tst, body=body_, orelse=else_), st))
+        return out
+
+    for ci in list(P.classes.values()):
+        mro = P.mro(ci.name)
+        for fn in list(ci.methods.values()):
+            def rewrite(body):
+                out = []
+                for st in body:
+                    for f in ("body", "orelse", "finalbody"):
+                        v = getattr(st, f, None)
+                        if isinstance(v, list) and v and isinstance(v[0], ast.stmt):
+                            setattr(st, f, rewrite(v))
+                    new = None
+                    if isinstance(st, ast.Assign) and len(st.targets) == 1 and isinstance(st.targets[0], (ast.Name, ast.Attribute)) and isinstance(st.value, ast.Call) \
+                            and isinstance(st.value.func, ast.Attribute) and isinstance(st.value.func.value, ast.Name) and st.value.func.value.id == "self" \
+                            and st.value.func.attr not in anchors and not st.value.keywords and not _overridden_below(P, ci.name, st.value.func.attr):
+                        h = None
+                        for c in mro:
+                            if c in P.classes and st.value.func.attr in P.classes[c].methods:
+                                h = P.classes[c].methods[st.value.func.attr]
+                                break
+                        if h is not None and h is not fn and not h.decorator_list and not h.args.vararg and not h.args.kwarg and not h.args.kwonlyargs and not h.args.defaults:
+                            hbody = [s_ for s_ in h.body if not (isinstance(s_, ast.Expr) and isinstance(s_.value, ast.Constant))]
+                            params = [a.arg for a in h.args.args][1:]
+                            simple = not any(isinstance(x, (ast.For, ast.While, ast.Try, ast.With, ast.Lambda, ast.FunctionDef, ast.Yield, ast.YieldFrom, ast.ListComp, ast.GeneratorExp,
+                                                               ast.DictComp, ast.SetComp, ast.NamedExpr)) for s_ in hbody for x in ast.walk(s_)) and not _stores(hbody)
+                            args = st.value.args
+                            if simple and len(params) == len(args) and len(hbody) > 1 and any(isinstance(x, ast.If) for x in hbody):
+                                okargs = all(isinstance(a, (ast.Constant, ast.Name, ast.Attribute)) or
+                                             (not any(isinstance(y, ast.Call) for y in ast.walk(a)))
+                                             for a in args)
+                                t_ = tree(hbody) if okargs else None
+                                if t_ is not None:
+                                    new = render(t_, dict(zip(params, args)), st.targets[0], st)
+                                    h._returning_inlined = True
+                    out += new if new is not None else [st]
+                return out
+            fn.body = rewrite(fn.body)
+            ast.fix_missing_locations(fn)
+    called = set()
+    for m in P.modules.values():
+        for n in ast.walk(m.tree):
+            if isinstance(n, ast.Attribute):
+                called.add(n.attr)
+    for ci in P.classes.values():
+        for name in [k for k, f in ci.methods.items() if getattr(f, "_returning_inlined", False) and k not in called]:
+            ci.node.body.remove(ci.methods[name])
+            del ci.methods[name]
+
+
 def _canonical_call_arguments(P):
     """keyword arguments are listed in alphabetical order (their order carries no meaning); a call by bare name to a package-level function that is defined
     once passes as many arguments positionally as its keywords allow (`random_choice(array=a, probs=p)` is `random_choice(a, p)`)"""
@@ -1687,6 +1786,7 @@ def normalise_program(P):
     _inline_wrappers(P, ANCHOR_METHODS)
     _trivial_members(P, ANCHOR_METHODS)
     _inline_foreign_helpers(P, ANCHOR_METHODS)
+    _inline_returning_helpers(P, ANCHOR_METHODS)
     _inline_expression_functions(P, ANCHOR_METHODS)
     _specialise_helpers(P, ANCHOR_METHODS)
     for m in P.modules.values():
